@@ -10,7 +10,6 @@ import (
 	"path/filepath"
 	"strings"
 
-	"github.com/JunNishimura/Goit/internal/file"
 	"github.com/JunNishimura/Goit/internal/object"
 	"github.com/JunNishimura/Goit/internal/store"
 	"github.com/spf13/cobra"
@@ -98,6 +97,39 @@ func restoreWorkingDirectory(rootGoitPath, path string, index *store.Index) erro
 	return nil
 }
 
+// stagedTargets returns the paths a `restore --staged` argument stands for: the path itself when HEAD or the
+// index has a file there, otherwise every file beneath it in HEAD or in the index
+func stagedTargets(arg string, index *store.Index, tree *object.Tree) []string {
+	_, _, isEntryFound := index.GetEntry([]byte(arg))
+	node, isNodeFound := object.GetNode(tree.Children, arg)
+	if isEntryFound || (isNodeFound && len(node.Children) == 0) {
+		return []string{arg}
+	}
+
+	seen := make(map[string]bool)
+	var paths []string
+	if isNodeFound {
+		// GetPaths starts at the node itself: put the directories above it back in front
+		parent := ""
+		if i := strings.LastIndex(arg, "/"); i >= 0 {
+			parent = arg[:i+1]
+		}
+		for _, path := range node.GetPaths() {
+			if !seen[parent+path] {
+				seen[parent+path] = true
+				paths = append(paths, parent+path)
+			}
+		}
+	}
+	for _, entry := range index.GetEntriesByDirectory(arg) {
+		if !seen[string(entry.Path)] {
+			seen[string(entry.Path)] = true
+			paths = append(paths, string(entry.Path))
+		}
+	}
+	return paths
+}
+
 // restoreCmd represents the restore command
 var restoreCmd = &cobra.Command{
 	Use:   "restore",
@@ -141,68 +173,16 @@ var restoreCmd = &cobra.Command{
 			}
 
 			for _, arg := range args {
-				argAbsPath, err := filepath.Abs(arg)
-				if err != nil {
-					return fmt.Errorf("fail to get arg abs path: %w", err)
+				cleanedArg := filepath.Clean(arg)
+				cleanedArg = strings.ReplaceAll(cleanedArg, `\`, "/")
+
+				// a file known to HEAD or to the index, or every such file beneath a directory
+				paths := stagedTargets(cleanedArg, client.Idx, tree)
+				if len(paths) == 0 {
+					return fmt.Errorf("error: pathspec '%s' did not match any file(s) known to goit", arg)
 				}
-				f, err := os.Stat(argAbsPath)
-				if os.IsNotExist(err) { // even if the file is not found, the file might be the deleted file
-					// get node
-					cleanedArg := filepath.Clean(arg)
-					cleanedArg = strings.ReplaceAll(cleanedArg, `\`, "/")
-					node, isNodeFound := object.GetNode(tree.Children, cleanedArg)
-					if !isNodeFound {
-						return fmt.Errorf("error: pathspec '%s' did not match any file(s) known to goit", arg)
-					}
-
-					// check if the arg is dir or not
-					if len(node.Children) > 0 { // node is directory
-						paths := node.GetPaths()
-
-						for _, path := range paths {
-							if err := restoreIndex(client.RootGoitPath, path, client.Idx, tree); err != nil {
-								return err
-							}
-						}
-					} else { // node is a file
-						if err := restoreIndex(client.RootGoitPath, cleanedArg, client.Idx, tree); err != nil {
-							return err
-						}
-					}
-
-					continue
-				}
-				if err != nil {
-					return fmt.Errorf("%w: %s", ErrIOHandling, arg)
-				}
-
-				if f.IsDir() { // directory
-					filePaths, err := file.GetFilePathsUnderDirectory(argAbsPath)
-					if err != nil {
-						return fmt.Errorf("fail to get file path under directory: %w", err)
-					}
-					for _, filePath := range filePaths {
-						curPath, err := os.Getwd()
-						if err != nil {
-							return fmt.Errorf("fail to get current directory: %w", err)
-						}
-						relPath, err := filepath.Rel(curPath, filePath)
-						if err != nil {
-							return fmt.Errorf("fail to get relative path: %w", err)
-						}
-						cleanedRelPath := strings.ReplaceAll(relPath, `\`, "/")
-
-						// restore index
-						if err := restoreIndex(client.RootGoitPath, cleanedRelPath, client.Idx, tree); err != nil {
-							return err
-						}
-					}
-				} else { // file
-					cleanedArg := filepath.Clean(arg)
-					cleanedArg = strings.ReplaceAll(cleanedArg, `\`, "/")
-
-					// restore index
-					if err := restoreIndex(client.RootGoitPath, cleanedArg, client.Idx, tree); err != nil {
+				for _, path := range paths {
+					if err := restoreIndex(client.RootGoitPath, path, client.Idx, tree); err != nil {
 						return err
 					}
 				}
@@ -210,67 +190,26 @@ var restoreCmd = &cobra.Command{
 		} else {
 			// execute restore working directory
 			for _, arg := range args {
-				argAbsPath, err := filepath.Abs(arg)
-				if err != nil {
-					return fmt.Errorf("fail to get arg abs path: %w", err)
+				cleanedArg := filepath.Clean(arg)
+				cleanedArg = strings.ReplaceAll(cleanedArg, `\`, "/")
+
+				// check if the arg is registered in the index, as a file or as a directory
+				_, _, isRegistered := client.Idx.GetEntry([]byte(cleanedArg))
+				isRegisteredAsDir := client.Idx.IsRegisteredAsDirectory(cleanedArg)
+
+				if !(isRegistered || isRegisteredAsDir) {
+					return fmt.Errorf("error: pathspec '%s' did not match any file(s) known to goit", arg)
 				}
-				f, err := os.Stat(argAbsPath)
-				if os.IsNotExist(err) {
-					// check if the arg is registered in the index
-					cleanedArg := filepath.Clean(arg)
-					cleanedArg = strings.ReplaceAll(cleanedArg, `\`, "/")
-					_, _, isRegistered := client.Idx.GetEntry([]byte(cleanedArg))
-					isRegisteredAsDir := client.Idx.IsRegisteredAsDirectory(cleanedArg)
 
-					if !(isRegistered || isRegisteredAsDir) {
-						return fmt.Errorf("error: pathspec '%s' did not match any file(s) known to goit", arg)
-					}
-
-					if isRegisteredAsDir {
-						entries := client.Idx.GetEntriesByDirectory(cleanedArg)
-						for _, entry := range entries {
-							if err := restoreWorkingDirectory(client.RootGoitPath, string(entry.Path), client.Idx); err != nil {
-								return err
-							}
-						}
-					} else {
-						if err := restoreWorkingDirectory(client.RootGoitPath, cleanedArg, client.Idx); err != nil {
+				if isRegisteredAsDir {
+					// every tracked file beneath the directory, whether or not it exists on disk
+					entries := client.Idx.GetEntriesByDirectory(cleanedArg)
+					for _, entry := range entries {
+						if err := restoreWorkingDirectory(client.RootGoitPath, string(entry.Path), client.Idx); err != nil {
 							return err
 						}
 					}
-
-					continue
-				}
-				if err != nil {
-					return fmt.Errorf("%w: %s", ErrIOHandling, arg)
-				}
-
-				if f.IsDir() { // directory
-					filePaths, err := file.GetFilePathsUnderDirectory(argAbsPath)
-					if err != nil {
-						return fmt.Errorf("fail to get file path under directory: %w", err)
-					}
-					for _, filePath := range filePaths {
-						curPath, err := os.Getwd()
-						if err != nil {
-							return fmt.Errorf("fail to get current directory: %w", err)
-						}
-						relPath, err := filepath.Rel(curPath, filePath)
-						if err != nil {
-							return fmt.Errorf("fail to get relative path: %w", err)
-						}
-						cleanedRelPath := strings.ReplaceAll(relPath, `\`, "/")
-
-						// restore working directory
-						if err := restoreWorkingDirectory(client.RootGoitPath, cleanedRelPath, client.Idx); err != nil {
-							return err
-						}
-					}
-				} else { // file
-					cleanedArg := filepath.Clean(arg)
-					cleanedArg = strings.ReplaceAll(cleanedArg, `\`, "/")
-
-					// restore working directory
+				} else {
 					if err := restoreWorkingDirectory(client.RootGoitPath, cleanedArg, client.Idx); err != nil {
 						return err
 					}
